@@ -1,10 +1,91 @@
-//! C06 — not built yet.
+//! C06 Stale and premature manifests/CRLs follow the configured policy.
+
+use proptest::prelude::*;
 
 use crate::core::*;
+use crate::erpki::*;
+use crate::erun::*;
+use crate::escen::*;
 
-pub const IMPLEMENTED: bool = false;
+fn scenario(words: &[u16]) -> Scenario {
+    let mut hp = HistProfile::default();
+    hp.base.fault_16 = 0;
+    hp.base.obj_faults = false;
+    hp.base.pp_faults = false;
+    hp.base.cert_faults = false;
+    hp.base.max_cas = 6;
+    hp.base.versions = 2;
+    hp.incomplete_16 = 0;
+    hp.rollback_16 = 1;
+    hp.fail_module_16 = 1;
+    hp.offline_16 = 3;
+    hp.max_steps = 3;
+    let mut sc = history_run(words, &hp);
+    // a second genome pass decides staleness / prematurity and per-step policies
+    let mut d = D::new(words);
+    for _ in 0..7 {
+        d.next();
+    }
+    for ca in sc.cas.iter_mut() {
+        for ver in ca.versions.iter_mut() {
+            match d.below(10) {
+                0..=4 => {}
+                5 => ver.next_off = d.pick(&[-1800i64, -7200, -20000]),
+                6 => ver.crl_next_off = d.pick(&[-1800i64, -7200, -20000]),
+                7 => {
+                    ver.next_off = -3600;
+                    ver.crl_next_off = -7200;
+                }
+                _ => ver.this_off = d.pick(&[1800i64, 86400]),
+            }
+        }
+    }
+    for s in sc.steps.iter_mut() {
+        s.stale = d.pick(&[None, Some(2u8), Some(0), Some(1), Some(0)]);
+    }
+    sc
+}
 
-pub fn run(_ctx: &Ctx, _rep: &mut Report, _replay: Option<&serde_json::Value>) {
-    eprintln!("C06: check not implemented");
-    std::process::exit(2);
+fn has_stale_or_premature_with_payload(sc: &Scenario) -> bool {
+    sc.cas.iter().enumerate().any(|(i, ca)| {
+        ca.versions.iter().any(|v| v.next_off < 0 || v.crl_next_off < 0 || v.this_off > 0) && descendants(sc, i).iter().any(|d| sc.cas[*d].versions.iter().any(|v| !v.objs.is_empty()))
+    })
+}
+
+fn prop(sc: &Scenario, info: &mut CaseInfo) -> Verdict {
+    let j = Judge { id: "C06", sound: true, complete: true, store: true, points: true, ..Default::default() };
+    let v = judge(&j, sc, info, |_, _| None);
+    info.nontrivial = has_stale_or_premature_with_payload(sc);
+    for c in history_classes(sc) {
+        info.class(c);
+    }
+    for ca in &sc.cas {
+        for v in &ca.versions {
+            if v.next_off < 0 {
+                info.class("stale_manifest");
+            }
+            if v.crl_next_off < 0 {
+                info.class("stale_crl");
+            }
+            if v.this_off > 0 {
+                info.class("premature_manifest");
+            }
+        }
+    }
+    for s in &sc.steps {
+        info.class(format!("policy_{:?}", s.stale.unwrap_or(sc.cfg.stale)));
+    }
+    v
+}
+
+pub fn run(ctx: &Ctx, rep: &mut Report, replay: Option<&serde_json::Value>) {
+    rep.rule("E-rpki histories of 2-3 runs where any subset of CAs has a manifest and/or CRL past nextUpdate (30 min .. 5.5 h; always after its own thisUpdate, as the encoding requires) or a manifest thisUpdate in the future (+30 min, +1 d), the stale policy (reject/warn/accept) is chosen per run (so a version stored under 'accept' is re-read under 'reject'), with offline runs and transport failures forcing the stored path; oracle: payload, stored versions and accepted/rejected publication-point counts equal the model (reject => nothing from the CA or its descendants; warn/accept => as if fresh; premature never accepted from the fetch path); non-trivial = a stale/premature CA with payload-bearing descendants; distinct by serialised scenario");
+    rep.assume("all generated time offsets keep >= 30 min distance from the wall clock, so no verdict depends on when exactly the run executes");
+    ctx.shrink_iters.store(120, std::sync::atomic::Ordering::Relaxed);
+    if let Some(v) = replay {
+        let t: Tagged<Scenario> = serde_json::from_value(v.clone()).expect("replay");
+        run_case(ctx, rep, &t.sub, &t.case, prop);
+        return;
+    }
+    run_prop_par(ctx, rep, "history", ctx.tier.pick(240, 6000), 8, || genome(260).prop_map(|w| scenario(&w)), prop);
 }
